@@ -296,6 +296,8 @@ def canon(x, _depth=0):
               [canon(v, d) for v in x.ravel().tolist()]]
   if isinstance(x, BaseException):
     return ['exc', type(x).__name__]
+  if mod == 'fractions' or tname == 'ProbeFraction':
+    return ['frac', str(x.numerator), str(x.denominator)]
   if isinstance(x, range):
     return ['range', x.start, x.stop, x.step]
   if isinstance(x, tuple) and hasattr(x, '_fields'):
